@@ -70,7 +70,7 @@ class _Gen:
             return ["as_unsigned", inner]
         if k < 0.95:
             width = r.randint(0, 4)
-            stride = r.choice([1, width])       # (width 0, stride 0: word_select(offset, 0))
+            stride = r.choice([1, width]) if width else 1
             return ["part", inner, self.explicit_unsigned(readable), width, stride]
         return inner
 
@@ -190,11 +190,11 @@ class _Gen:
         elif k < 0.86 and not whole and n >= 1:
             # a part select of a *slice*: what falls outside the slice is dropped, the rest of the signal is not touched
             width = r.randint(0, min(4, n + 1))
-            stride = r.choice([1, width])       # (width 0, stride 0: word_select(offset, 0))
+            stride = r.choice([1, width]) if width else 1
             t = ["part", base, self.explicit_unsigned(readable), width, stride]
         elif k < 0.86 and whole and w > 0:
             width = r.randint(0, min(4, w + 1))
-            stride = r.choice([1, width])       # (width 0, stride 0: word_select(offset, 0))
+            stride = r.choice([1, width]) if width else 1
             off = self.explicit_unsigned(readable)
             if r.random() < 0.12:
                 # a wide offset (think of a 64-bit address) that is far out of range: nothing is assigned, at no cost
